@@ -29,7 +29,7 @@ LEVEL = "fault_enumeration"
 SHARDS = {"quick": 4, "thorough": 16}
 SHARD_TIMEOUT = {"quick": 900, "thorough": 3400}
 REQUIRED = ["wsgi-rendezvous", "wsgi-yield-injection", "asgi-virtual-time", "cleanup-exactly-once", "no-leaked-thread", "no-pending-task",
-            "delivered-prefix", "bounded-return", "deadlock-analysis-armed", "producer-steps-after-close", "queued-relay", "busy-producer", "asgi-fault-combinations", "overlapped-clients", "large-chunks"]
+            "delivered-prefix", "bounded-return", "deadlock-analysis-armed", "producer-steps-after-close", "queued-relay", "busy-producer", "asgi-fault-combinations", "overlapped-clients", "large-chunks", "pool-after-early-closes", "scope-variants"]
 RULE = ("WSGI SendEventResponse rendezvous scenarios: producer length n in 0..4 x close point k (before first next, after item 1..n, after exhaustion) x producer state at "
         "close {exhausted, mid-step then yields / returns / raises, ahead (item ready, relay blocked in put)} x ping {20 ms, never}; WSGI yield-injection scenarios: random "
         "n<=4, close point, producer delays 0-3 ms, producer raising, ping 2 ms / never, LINE-event pauses p=0.4; WSGI StreamResponse early close; ASGI StreamResponse and "
@@ -398,6 +398,56 @@ def overlapped_clients(ctx, n, k, ping, first_ends):
     pool.shutdown(wait=False)
 
 
+def pool_after_early_closes(ctx, closes):
+    """the relay threads come from one small pool that lives as long as the process: after a series of clients that left early
+    a later client must still be served (no worker may stay occupied by an abandoned stream)"""
+    from baize import wsgi
+    pool, prefix = new_pool()  # 2 workers
+    case = {"scenario": "one worker pool, N early closes, then a normal stream", "early_closes": closes}
+    res = {}
+
+    def gen(n):
+        for i in range(n):
+            yield {"data": str(i), "id": str(i)}
+
+    def work():
+        try:
+            for j in range(closes):
+                it = iter(wsgi.SendEventResponse(gen(6), ping_interval=5)(drivers.to_environ(drivers.Req()), lambda s, h, e=None: None))
+                next(it)
+                if j % 2:
+                    time.sleep(0.01)  # the relay has the next event ready and is blocked handing it over
+                it.close()
+            it = iter(wsgi.SendEventResponse(gen(4), ping_interval=0.05)(drivers.to_environ(drivers.Req()), lambda s, h, e=None: None))
+            got = []
+            t0 = time.time()
+            for c in it:
+                got.append(c)
+                if time.time() - t0 > 3:
+                    break
+            it.close()
+            res["ids"] = ids_of(got)
+        except BaseException as e:  # noqa
+            res["exc"] = e
+    ct = threading.Thread(target=work, daemon=True, name=prefix + "consumer")
+    ct.start()
+    ct.join(15.0)
+    ctx.mon("pool-after-early-closes")
+    if ct.is_alive():
+        verdict, stacks = deadlock_analysis(ct, prefix)
+        ctx.violation(f"wsgi-sse|{verdict if verdict.startswith('deadlock') else 'no-progress'}|after-early-closes", case, stacks)
+        ctx.extra["_stuck_threads"] = True
+        return
+    if "exc" in res:
+        ctx.violation(f"wsgi-sse|after-early-closes|unexpected-exception-{type(res['exc']).__name__}", case, repr(res["exc"]))
+    elif res.get("ids") != [0, 1, 2, 3]:
+        ctx.violation("wsgi-sse|after-early-closes|later-client-starved", case, f"the client after {closes} early closes received {res.get('ids')} of [0, 1, 2, 3] (workers still occupied by abandoned streams?)")
+    leaked = leak_check(prefix)
+    if leaked:
+        ctx.violation("wsgi-sse|after-early-closes|relay-thread-still-running", case, repr(leaked))
+    pool.shutdown(wait=False)
+
+
 def queued_relay(ctx, ping):
     """all workers of the shared pool are busy: a second event stream's relay is still queued when its iterable is closed"""
     import baize.wsgi.responses as R
@@ -655,7 +705,7 @@ class StarvationGuard(BaseException):
 
 
 def asgi_scenario(ctx, cls_name, n_items, item_delay, send_delay, t_disc, ping, raise_at, agen, empties=0,
-                  cleanup_raises=False, send_fail_at=None, busy=False):
+                  cleanup_raises=False, send_fail_at=None, busy=False, request_messages=0, spec_version=None):
     """busy: an endless producer that never awaits between its yields (like the class docstring's example) against a
     client that takes send_delay per event; cleanup_raises: the producer's own cleanup raises; send_fail_at: the
     server's n-th body send() raises OSError (client gone without an http.disconnect message)."""
@@ -696,10 +746,17 @@ def asgi_scenario(ctx, cls_name, n_items, item_delay, send_delay, t_disc, ping, 
 
     nbody = [0]
 
+    pre = [request_messages]
+
     async def receive():
+        if pre[0] > 0:
+            # the request body is still arriving in small pieces while the response streams (an upload that is answered with progress events)
+            pre[0] -= 1
+            await asyncio.sleep(0)
+            return {"type": "http.request", "body": b"x", "more_body": pre[0] > 0}
         if t_disc is None:
             await asyncio.Event().wait()
-        await asyncio.sleep(t_disc)
+        await asyncio.sleep(max(0.0, t_disc - loop.time()))
         log.append(("disc", loop.time()))
         return {"type": "http.disconnect"}
 
@@ -720,7 +777,10 @@ def asgi_scenario(ctx, cls_name, n_items, item_delay, send_delay, t_disc, ping, 
         resp = cls(producer, **kw)
         exc = None
         try:
-            await resp(drivers.to_scope(drivers.Req()), receive, send)
+            scope = drivers.to_scope(drivers.Req())
+            if spec_version:
+                scope["asgi"] = {"version": "3.0", "spec_version": spec_version}
+            await resp(scope, receive, send)
         except BaseException as e:  # noqa
             exc = e
         t_ret = loop.time()
@@ -759,7 +819,8 @@ def asgi_scenario(ctx, cls_name, n_items, item_delay, send_delay, t_disc, ping, 
         loop.close()
     case = {"class": "asgi." + cls_name, "n": n_items, "producer_delay": item_delay, "send_delay": send_delay, "disconnect_at": t_disc, "ping": ping,
             "raise_at": raise_at, "async_generator": agen, "empty_chunks_before_each_item": empties,
-            "cleanup_raises": cleanup_raises, "send_fail_at": send_fail_at, "busy_endless_producer": busy}
+            "cleanup_raises": cleanup_raises, "send_fail_at": send_fail_at, "busy_endless_producer": busy,
+            "request_messages_before_disconnect": request_messages, "asgi_spec_version": spec_version}
     ctx.mon("asgi-virtual-time")
     fam = "asgi-sse" if sse else "asgi-stream"
     if stuck:
@@ -856,6 +917,12 @@ def run(ctx):
                                         sig, nt = asgi_scenario(ctx, cls, n_items, idl, sdl, td, 1.0, None, True, cleanup_raises=cr, send_fail_at=sf)
                                         ctx.mon("asgi-fault-combinations")
                                         ctx.case_enum(True)
+                                if agen and n_items and raise_at is None and idx % 12 == 1:
+                                    # the scope advertises a recent ASGI spec version / the request body trickles in during the response
+                                    sig, nt = asgi_scenario(ctx, cls, n_items, idl, sdl, td, 1.0, None, True, spec_version=rng.choice(["2.3", "2.4", "2.5"]),
+                                                            request_messages=rng.choice([0, 3, 14, 40]))
+                                    ctx.mon("scope-variants")
+                                    ctx.case_enum(True)
                                 if agen and n_items and idl and idx % 8 == 1:
                                     sig, nt = asgi_scenario(ctx, cls, n_items, idl, sdl, td, 1.0, raise_at, True, empties=3)
                                     sigs.add((cls, sig))
@@ -893,6 +960,9 @@ def run(ctx):
         for ping in (0.02, 0.2):
             queued_relay(ctx, ping)
             ctx.case(("queued-relay", ping))
+        for closes in (3, 8):
+            pool_after_early_closes(ctx, closes)
+            ctx.case(("pool-after-early-closes", closes))
         for n, k in ((3, 1), (4, 2), (6, 0), (5, 5), (30, 3)):
             for first_ends in ("closed-early", "exhausted"):
                 overlapped_clients(ctx, n, k, 5, first_ends)
@@ -900,6 +970,7 @@ def run(ctx):
     else:
         ctx.mon("queued-relay", 0)
         ctx.mon("overlapped-clients", 0)
+        ctx.mon("pool-after-early-closes", 0)
     # ---------------- WSGI rendezvous
     import itertools
     scen = []
@@ -963,9 +1034,11 @@ def replay(ctx, case):
     if case.get("class", "").startswith("asgi."):
         asgi_scenario(ctx, case["class"][5:], case["n"], case["producer_delay"], case["send_delay"], case["disconnect_at"], case["ping"], case["raise_at"],
                       case.get("async_generator", True), case.get("empty_chunks_before_each_item", 0), case.get("cleanup_raises", False),
-                      case.get("send_fail_at"), case.get("busy_endless_producer", False))
+                      case.get("send_fail_at"), case.get("busy_endless_producer", False), case.get("request_messages_before_disconnect", 0), case.get("asgi_spec_version"))
     elif case.get("class") == "wsgi.StreamResponse":
         wsgi_stream_response(ctx, case["n"], case["close_after"], case["raise_at"], case.get("producer", "generator"))
+    elif case.get("scenario", "").startswith("one worker pool"):
+        pool_after_early_closes(ctx, case["early_closes"])
     elif case.get("scenario", "").startswith("one response object, two overlapping"):
         overlapped_clients(ctx, case["n"], case["first_client_closes_after"], case["ping"], case["first_ends"])
     elif "scenario" in case:
